@@ -325,6 +325,25 @@ pub fn run(ctx: &mut Ctx) {
         }
     }
 
+    // --- ZA || M of 2^29 bytes and more: the SM3 bit length needs more than 32 bits. One shard only (1.5 GB transient).
+    if ctx.shard == ctx.nshards - 1 {
+        let mut p = ctx.prng("bitlen_2^32");
+        let lens: Vec<usize> = if ctx.thorough { vec![(1 << 29) - 32, (1 << 29) + 1] } else { vec![(1 << 29) - 32] };
+        for len in lens {
+            let d = rand_scalar(&mut p, &(&c.n - 1u32));
+            let k = rand_scalar(&mut p, &c.n);
+            let mut msg = vec![0u8; len];
+            let head = p.bytes(4096);
+            msg[..4096].copy_from_slice(&head);
+            let tail = p.bytes(4096);
+            msg[len - 4096..].copy_from_slice(&tail);
+            ctx.class("msg_bitlen_beyond_2^32");
+            ctx.journal_call("sign", &format!("message of {} bytes", len));
+            fixed_case(ctx, &d, None, DEFAULT_ID, &msg, &k, "msg_bitlen_beyond_2^32");
+            ctx.journal_ret("done");
+        }
+    }
+
     // --- long IDs: 8191 bytes must work, 8192 must be IdTooLong
     if ctx.mine(7) {
         let mut p = ctx.prng("longid");
